@@ -64,6 +64,10 @@ func cmpEqualGuard(accept func(cmp *ssa.Call) bool) condMatch {
 
 func runC10(r *Run) {
 	defer importProcessLocal(r, "RM", "x/erc20")
+	defer func() {
+		r.Rule("R8", "PATH.params-authority: the erc20 message handlers whose request carries an Authority field (MsgUpdateParams: EnableErc20, EnableEVMHook, …) write module state only where it equals the module authority — conversion switches and hooks are governance-controlled")
+		r.Floor("R8", "authority-guarded erc20 message handlers", checkAuthorityGuards(r, "R8", "x/erc20/keeper"), 1)
+	}()
 	P := r.P
 	r.Rule("R1", "PATH+FLOW.pairing: per conversion function, every success exit is preceded by all tabled events (error-checked) and guards; amounts derive from the message's amount field; in convertERC20NativeToken the escrow comparison precedes MintCoins")
 	r.Rule("R2", "OWN.erc20-mint: MintCoins/BurnCoins(…,\"erc20\",…) only in convertERC20NativeToken (mint), convertCoinNativeERC20 (burn) and PostTxProcessing (mint)")
